@@ -183,9 +183,11 @@ class Program:
                 if isinstance(n, ast.Call) and isinstance(n.func, ast.Name):
                     fid = n.func.id
                     dynamic = fid in ("eval", "exec", "__import__", "globals", "locals", "vars")
-                    if fid in ("getattr", "setattr", "delattr", "hasattr"):
-                        # a constant attribute name is as static as obj.name; anything else defeats the effect analysis
+                    if fid in ("setattr", "delattr"):
+                        # a constant attribute name is as static as obj.name = v; a computed name defeats the effect analysis
                         dynamic = not (len(n.args) >= 2 and isinstance(n.args[1], ast.Constant) and isinstance(n.args[1].value, str))
+                    # getattr / hasattr with a computed name are *reads*: the interpreter resolves the name when it
+                    # evaluates to a string constant (a loop over a literal table) and otherwise yields an opaque value
                     if dynamic:
                         raise AnalysisError(
                             f"{m.relpath}:{n.lineno}: dynamic feature {fid}() - effect analysis would be unsound"
